@@ -1,5 +1,5 @@
 #!/venv/bin/python
-"""harness/devmatrix.py [-j N] [ids...]: every quick check against every seeded change, in parallel, on SCRATCH worktrees of /repo
+"""harness/devmatrix.py [-j N] [--only C19,C07] [ids...]: every quick check against every seeded change, in parallel, on SCRATCH worktrees of /repo
 (VERIF_REPO=<worktree>; /repo itself is not touched).  A change whose regenerated facts differ from the built ones is not run here
 (the shared Coq build would have to be redone for it): it is listed as facts-changing and must be run with harness/seedtest.py on
 /repo.  Results go to seeded/<id>/meta.json ("dev_matrix") and seeded/MATRIX.md."""
@@ -27,7 +27,7 @@ def facts_same(tree):
     return rc == 0 and out.strip().endswith("True")
 
 
-def one_seed(sid, slot):
+def one_seed(sid, slot, only=None):
     wt = "/tmp/mx_%d" % slot
     if not os.path.isdir(wt):
         sh("git -C /repo worktree add --detach %s HEAD" % wt)
@@ -39,7 +39,7 @@ def one_seed(sid, slot):
     if not facts_same(wt):
         sh("git -C %s checkout -q -- ." % wt)
         return {"facts_changing": True}
-    for c in CHECKS:
+    for c in (only or CHECKS):
         rc, out = sh("cd %s && VERIF_REPO=%s VERIF_EVIDENCE_SUFFIX=.mx%d timeout 2400 harness/check.py %s --no-build" % (VERIF, wt, slot, c))
         viol = [l for l in out.split("\n") if l.startswith("VIOLATION")]
         first = [l.strip() for l in out.split("\n") if l.startswith("  [")][:1]
@@ -53,6 +53,10 @@ def main():
     j = 5
     if args and args[0] == "-j":
         j = int(args[1])
+        args = args[2:]
+    only = None
+    if args and args[0] == "--only":          # --only C19[,C07] [ids...]: redo these checks only and merge them into the recorded rows
+        only = args[1].split(",")
         args = args[2:]
     ids = args or sorted(d for d in os.listdir(os.path.join(VERIF, "seeded")) if os.path.exists(os.path.join(VERIF, "seeded", d, "meta.json")))
     q = queue.Queue()
@@ -68,10 +72,14 @@ def main():
                 sid = q.get_nowait()
             except queue.Empty:
                 return
-            res = one_seed(sid, slot)
+            res = one_seed(sid, slot, only)
             mp = os.path.join(VERIF, "seeded", sid, "meta.json")
             with lock:
                 meta = json.load(open(mp))
+                if only and isinstance(meta.get("dev_matrix"), dict) and not res.get("facts_changing") and "error" not in res:
+                    merged = dict(meta["dev_matrix"])
+                    merged.update(res)
+                    res = merged
                 meta["dev_matrix"] = res
                 json.dump(meta, open(mp, "w"), indent=1)
                 hit = sorted(c for c, v in res.items() if isinstance(v, dict) and v.get("exit"))
